@@ -181,14 +181,18 @@ def _u10_from_bulk_rate_point(
         )
 
         try:
+            # Note: arguments are passed by position; a keyword-argument call inside
+            # a jitted try block ends up in the except branch.
             u10 = numba_newton_raphson(
                 _u10_iteration_function,
                 u10,
                 args,
                 (0, np.inf),
-                atol=atol,
-                rtol=rtol,
-                numerical_stepsize=numerical_stepsize,
+                100,
+                True,
+                atol,
+                rtol,
+                numerical_stepsize,
             )
         except:
             u10 = np.nan
